@@ -51,7 +51,7 @@ Action(inp, p) ==
   IN IF q2 = q1 THEN bad                             \* no identifier
      ELSE IF ~lt /\ q1 = q /\ FALSE THEN bad
      ELSE IF StartsWith(inp, q3, RD) THEN [kind |-> "ok", next |-> q3 + Len(RD), ltrim |-> lt, rtrim |-> FALSE, n |-> q2 - q1]
-     ELSE IF q3 > q2 /\ StartsWith(inp, q3, <<"-">> \o RD)
+     ELSE IF q3 > q2 /\ inp[q3 - 1] = " " /\ StartsWith(inp, q3, <<"-">> \o RD)     \* the marker is blank + minus
           THEN [kind |-> "ok", next |-> q3 + 1 + Len(RD), ltrim |-> lt, rtrim |-> TRUE, n |-> q2 - q1]
      ELSE bad
 
